@@ -7,6 +7,8 @@
    free of 0x00) appear exactly in the theorems that need them. *)
 From Coq Require Import List NArith ZArith.
 From SVC Require Import Base.Bytes gen.KeysGen Model.Ids Proofs.IdsProofs Proofs.KProofs.
+(* gap closing (audit C18): loaded here, imported where its theorems are restated (end of file) *)
+From SVC Require Proofs.GapC18.
 Import ListNotations.
 
 (* ------------------------------------------------------------------ *)
@@ -475,3 +477,532 @@ Theorem C18_K_owner_earned_scan_refuted :
       is_prefix (GetOwnerEarnedFeesSubspace o) (GetOwnerEarnedFeesKey o' d') /\ o <> o'.
 Proof. exact K_owner_earned_scan_refuted. Qed.
 Print Assumptions C18_K_owner_earned_scan_refuted.
+
+(* ================================================================== *)
+(* Gap closing (build/audit/C18.md): proofs in Proofs/GapC18.v, GapC18Order.v, GapC18Trace.v.
+   From here on the state-machine model is in scope; integer literals are in Z unless marked. *)
+From Coq Require Import Bool.
+From SVC Require Import Base.AMap Base.Res Base.Dec Model.Types Model.Pricing
+  Model.Handlers Model.EndBlock Model.Step Proofs.Inv Proofs.ReqLemmas Proofs.CtxOps
+  Proofs.StepSpecs_batch Proofs.GapC18.
+Open Scope Z_scope.
+
+(* ------------------------------------------------------------------ *)
+(* facet 8: one denom => earned-fee keys injective in the provider, all lengths *)
+
+Theorem C18_K_inj_earned_same_denom :
+  forall p p' d : bytes, GetEarnedFeesKey p d = GetEarnedFeesKey p' d -> p = p'.
+Proof. exact K_inj_earned_same_denom. Qed.
+Print Assumptions C18_K_inj_earned_same_denom.
+
+(* ------------------------------------------------------------------ *)
+(* facet 9: parse-back of scanned keys, as the keeper slices them.
+   [index_of x l] is bytes.Index(l, []byte{x}). *)
+
+(* binding.go:393-396: key[AddrLen+1:], split at the first 0x00 *)
+Theorem C18_K_parse_owner_binding :
+  forall o sn p : bytes,
+    length o = 20%nat -> zero_free sn ->
+    let k := skipn 21 (GetOwnerServiceBindingKey o sn p) in
+    exists i : nat, index_of 0%N k = Some i /\ firstn i k = sn /\ skipn (S i) k = p.
+Proof. exact K_parse_owner_binding. Qed.
+Print Assumptions C18_K_parse_owner_binding.
+
+Theorem C18_K_parse_owner_binding_gen :
+  forall o sn p : bytes,
+    zero_free sn ->
+    let k := skipn (S (length o)) (GetOwnerServiceBindingKey o sn p) in
+    index_of 0%N k = Some (length sn) /\ firstn (length sn) k = sn /\ skipn (S (length sn)) k = p.
+Proof. exact K_parse_owner_binding_gen. Qed.
+Print Assumptions C18_K_parse_owner_binding_gen.
+
+(* K5 again: an owner that is not 20 bytes long is parsed back wrongly *)
+Theorem C18_K_parse_owner_binding_refuted :
+  exists o sn p : bytes,
+    length o = 21%nat /\ zero_free sn /\
+    let k := skipn 21 (GetOwnerServiceBindingKey o sn p) in
+    exists i : nat, index_of 0%N k = Some i /\ (firstn i k <> sn \/ skipn (S i) k <> p).
+Proof. exact K_parse_owner_binding_refuted. Qed.
+Print Assumptions C18_K_parse_owner_binding_refuted.
+
+(* fees.go:171: key[AddrLen+1:] *)
+Theorem C18_K_parse_owner_provider :
+  forall o p : bytes, length o = 20%nat -> skipn 21 (GetOwnerProviderKey o p) = p.
+Proof. exact K_parse_owner_provider. Qed.
+Print Assumptions C18_K_parse_owner_provider.
+
+Theorem C18_K_parse_owner_provider_gen :
+  forall o p : bytes, skipn (S (length o)) (GetOwnerProviderKey o p) = p.
+Proof. exact K_parse_owner_provider_gen. Qed.
+Print Assumptions C18_K_parse_owner_provider_gen.
+
+(* fees.go:200 (repair D8): key[1 : len(key)-len(denom)] *)
+Theorem C18_K_parse_earned :
+  forall p d : bytes,
+    let k := GetEarnedFeesKey p d in
+    firstn (length k - length d - 1) (skipn 1 k) = p.
+Proof. exact K_parse_earned. Qed.
+Print Assumptions C18_K_parse_earned.
+
+(* key[1:] *)
+Theorem C18_K_parse_tail_withdraw_addr :
+  forall o : bytes, skipn 1 (GetWithdrawAddrKey o) = o.
+Proof. exact K_parse_tail_withdraw_addr. Qed.
+Print Assumptions C18_K_parse_tail_withdraw_addr.
+
+Theorem C18_K_parse_tail_request_context :
+  forall c : bytes, skipn 1 (GetRequestContextKey c) = c.
+Proof. exact K_parse_tail_request_context. Qed.
+Print Assumptions C18_K_parse_tail_request_context.
+
+Theorem C18_K_parse_tail_request :
+  forall r : bytes, skipn 1 (GetRequestKey r) = r.
+Proof. exact K_parse_tail_request. Qed.
+Print Assumptions C18_K_parse_tail_request.
+
+Theorem C18_K_parse_tail_response :
+  forall r : bytes, skipn 1 (GetResponseKey r) = r.
+Proof. exact K_parse_tail_response. Qed.
+Print Assumptions C18_K_parse_tail_response.
+
+Theorem C18_K_parse_tail_active_by_id :
+  forall r : bytes, skipn 1 (GetActiveRequestKeyByID r) = r.
+Proof. exact K_parse_tail_active_by_id. Qed.
+Print Assumptions C18_K_parse_tail_active_by_id.
+
+(* a key found by the (context, batch) scan parses back to the id it was built from *)
+Theorem C18_K_parse_request_scan :
+  forall (c : bytes) (b : N) (h i : Z),
+    length c = 40%nat -> is_uint64 b -> is_int64 h -> is_int16 i ->
+    let k := GetRequestKey (gen_request_id c b h i) in
+    is_prefix (GetRequestSubspaceByReqCtx c b) k
+    /\ split_request_id (skipn 1 k) = Some (c, b, h, i).
+Proof. exact K_parse_request_scan. Qed.
+Print Assumptions C18_K_parse_request_scan.
+
+(* ------------------------------------------------------------------ *)
+(* facet 5: the position of a request in its batch's issue event is the index in its id.
+   The model logs one EvIssue per request, newest first, then one EvBatchStart
+   (Go: one new_batch_request event carrying the requests in provider order). *)
+
+Theorem C18_issue_all_log :
+  forall (s : State) (c : CtxId) (rc : Ctx) (n i : Z) (provs : list Z),
+    log (issue_all s c rc n i provs) =
+      rev (map (fun jp : nat * Z =>
+                  EvIssue (c, n, height s, i + Z.of_nat (fst jp)) (snd jp) (c_cons rc)
+                    (fee_of s rc (snd jp)))
+             (combine (seq 0 (length provs)) provs)) ++ log s.
+Proof. exact issue_all_log_pos. Qed.
+Print Assumptions C18_issue_all_log.
+
+Theorem C18_initiate_requests_event_index :
+  forall (s : State) (c : CtxId) (provs : list Z),
+    let rc := ctx_or_zero s c in
+    let n := c_counter rc + 1 in
+    exists evs : list Event,
+      log (initiate_requests s c provs) = EvBatchStart c n (height s) (len provs) :: evs ++ log s
+      /\ length evs = length provs
+      /\ forall (k : nat) (p : Z), nth_error provs k = Some p ->
+           nth_error (rev evs) k
+             = Some (EvIssue (c, n, height s, Z.of_nat k) p (c_cons rc) (fee_of s rc p))
+           /\ get (c, n, height s, Z.of_nat k) (reqs (initiate_requests s c provs))
+              = Some (new_req s rc p).
+Proof. exact initiate_requests_event_index. Qed.
+Print Assumptions C18_initiate_requests_event_index.
+
+(* the new-batch handler on a state satisfying the invariant, issuing branch:
+   the log grows by [EvBatchStart c n h (len E) :: evs ++ debit], the k-th issue event
+   (in issue order) carries the id (c, n, h, k) and the k-th eligible provider, and the
+   record stored under that id is the request to that provider *)
+Theorem C18_reqid_event_index :
+  forall (cfg : Params) (s : State) (c : CtxId),
+    wf_cfg cfg -> Inv cfg s -> In (height s, c) (newq s) -> height s < HEIGHT_BOUND ->
+    exists rc : Ctx, get c (ctxs s) = Some rc /\
+      let E := filter_providers s rc (c_provs rc) in
+      let n := c_counter rc + 1 in
+      (c_state rc = Running -> d5 rc = false -> 0 < len E -> c_thr rc <= len E ->
+       c_super rc = true \/ sum_prices E <= bal s (User (c_cons rc)) ->
+       exists evs : list Event,
+         log (new_one cfg s c)
+         = EvBatchStart c n (height s) (len E) :: evs
+           ++ (if c_super rc then [] else [EvDebit c (c_cons rc) (sum_prices E)]) ++ log s
+         /\ length evs = length E
+         /\ forall (k : nat) (p price : Z), nth_error E k = Some (p, price) ->
+              let fee := if c_super rc then 0 else price in
+              nth_error (rev evs) k = Some (EvIssue (c, n, height s, Z.of_nat k) p (c_cons rc) fee)
+              /\ get (c, n, height s, Z.of_nat k) (reqs (new_one cfg s c))
+                 = Some (mkReq p fee (height s + c_timeout rc) true)).
+Proof. exact reqid_event_index. Qed.
+Print Assumptions C18_reqid_event_index.
+
+(* on the reachable example state of Proofs/StepSpecs_batch.v (ExB: context c1 = (1001, 0),
+   providers 7 and 11 eligible at prices 10 and 30, consumer 50) *)
+Theorem C18_reqid_event_index_ex :
+  ExB.hyps ExB.s_a ExB.c1
+  /\ log (new_one ExB.cfg ExB.s_a ExB.c1)
+     = EvBatchStart ExB.c1 1 1 2
+       :: [EvIssue (ExB.c1, 1, 1, 1) 11 50 30; EvIssue (ExB.c1, 1, 1, 0) 7 50 10]
+       ++ [EvDebit ExB.c1 50 40] ++ log ExB.s_a
+  /\ get (ExB.c1, 1, 1, 0) (reqs (new_one ExB.cfg ExB.s_a ExB.c1)) = Some (mkReq 7 10 21 true)
+  /\ get (ExB.c1, 1, 1, 1) (reqs (new_one ExB.cfg ExB.s_a ExB.c1)) = Some (mkReq 11 30 21 true).
+Proof. exact ExIdx.reqid_event_index_ex. Qed.
+Print Assumptions C18_reqid_event_index_ex.
+
+(* ------------------------------------------------------------------ *)
+(* facet 6: the tuple identifiers of the state machine encode injectively.
+   [hb] : the 32 bytes of a transaction hash given as an integer (CtxId = hash, msg index);
+   hash_ok a = 0 <= a < 2^256;  cid_ok c = hash_ok (fst c) /\ is_int64 (snd c);
+   rid_ok r = cid_ok (rid_ctx r) /\ 0 <= rid_batch r < 2^64 /\ is_int64 (rid_height r)
+              /\ is_int16 (rid_index r).
+   Which of these ranges hold in reachable states: Proofs/GapC18Trace.v, below. *)
+
+Theorem C18_enc_ctx_inj :
+  forall hb : Z -> bytes,
+    (forall a : Z, hash_ok a -> length (hb a) = 32%nat) ->
+    (forall a b : Z, hash_ok a -> hash_ok b -> hb a = hb b -> a = b) ->
+    forall c c' : CtxId, cid_ok c -> cid_ok c' -> enc_ctx hb c = enc_ctx hb c' -> c = c'.
+Proof. exact enc_ctx_inj. Qed.
+Print Assumptions C18_enc_ctx_inj.
+
+Theorem C18_enc_rid_inj :
+  forall hb : Z -> bytes,
+    (forall a : Z, hash_ok a -> length (hb a) = 32%nat) ->
+    (forall a b : Z, hash_ok a -> hash_ok b -> hb a = hb b -> a = b) ->
+    forall r r' : ReqId, rid_ok r -> rid_ok r' -> enc_rid hb r = enc_rid hb r' -> r = r'.
+Proof. exact enc_rid_inj. Qed.
+Print Assumptions C18_enc_rid_inj.
+
+Theorem C18_enc_rid_len :
+  forall hb : Z -> bytes,
+    (forall a : Z, hash_ok a -> length (hb a) = 32%nat) ->
+    forall r : ReqId, rid_ok r -> length (enc_rid hb r) = 58%nat.
+Proof. exact enc_rid_len. Qed.
+Print Assumptions C18_enc_rid_len.
+
+Theorem C18_enc_rid_split :
+  forall hb : Z -> bytes,
+    (forall a : Z, hash_ok a -> length (hb a) = 32%nat) ->
+    (forall a b : Z, hash_ok a -> hash_ok b -> hb a = hb b -> a = b) ->
+    forall r : ReqId, rid_ok r ->
+      split_request_id (enc_rid hb r)
+      = Some (enc_ctx hb (rid_ctx r), Z.to_N (rid_batch r), rid_height r, rid_index r).
+Proof. exact enc_rid_split. Qed.
+Print Assumptions C18_enc_rid_split.
+
+Theorem C18_enc_rid_key_inj :
+  forall hb : Z -> bytes,
+    (forall a : Z, hash_ok a -> length (hb a) = 32%nat) ->
+    (forall a b : Z, hash_ok a -> hash_ok b -> hb a = hb b -> a = b) ->
+    forall r r' : ReqId, rid_ok r -> rid_ok r' ->
+      GetRequestKey (enc_rid hb r) = GetRequestKey (enc_rid hb r') -> r = r'.
+Proof. exact enc_rid_key_inj. Qed.
+Print Assumptions C18_enc_rid_key_inj.
+
+(* with the hash written as 32 big-endian bytes ([hash_bytes a = be 32 (Z.to_N a)]) both
+   hypotheses hold *)
+Theorem C18_enc_rid_inj_hash :
+  forall r r' : ReqId, rid_ok r -> rid_ok r' ->
+    enc_rid hash_bytes r = enc_rid hash_bytes r' -> r = r'.
+Proof. exact enc_rid_inj_hash. Qed.
+Print Assumptions C18_enc_rid_inj_hash.
+
+(* ------------------------------------------------------------------ *)
+(* facet 12: ORDER.  The store iterates keys in lexicographic byte order; the state machine
+   sorts identifiers field by field ([ctxid_leb], [rid_leb], [act_leb]).  Proofs/GapC18Order.v:
+     blt a b / ble a b : bytes.Compare(a, b) < 0 / <= 0  (boolean functions bltb, bleb);
+     nn_cid c = hash_ok (fst c) /\ 0 <= snd c < 2^63;
+     nn_rid r = nn_cid (rid_ctx r) /\ 0 <= rid_batch r < 2^64 /\ 0 <= rid_height r < 2^63
+                /\ 0 <= rid_index r < 2^15;
+     [hb] monotone: the hash bytes read as a big-endian integer.
+   The two orders agree on this domain and DISAGREE for negative signed fields. *)
+From Coq Require Import Sorting.Sorted.
+From SVC Require Import Model.Queries Proofs.GapC18Order.
+
+Theorem C18_blt_strict_total_order :
+  (forall a : bytes, ~ blt a a)
+  /\ (forall a b c : bytes, blt a b -> blt b c -> blt a c)
+  /\ (forall a b : bytes, blt a b \/ a = b \/ blt b a).
+Proof. exact blt_strict_total_order. Qed.
+Print Assumptions C18_blt_strict_total_order.
+
+Theorem C18_ble_iff : forall a b : bytes, ble a b <-> blt a b \/ a = b.
+Proof. exact ble_iff. Qed.
+Print Assumptions C18_ble_iff.
+
+Theorem C18_blt_app_prefix :
+  forall p a b : bytes, blt (p ++ a) (p ++ b) <-> blt a b.
+Proof. exact blt_app_prefix. Qed.
+Print Assumptions C18_blt_app_prefix.
+
+Theorem C18_blt_app_len :
+  forall a a' b b' : bytes,
+    length a = length a' ->
+    (blt (a ++ b) (a' ++ b') <-> blt a a' \/ (a = a' /\ blt b b')).
+Proof. exact blt_app_len. Qed.
+Print Assumptions C18_blt_app_len.
+
+(* big-endian fixed width: byte order = numeric order *)
+Theorem C18_be_lt_iff :
+  forall (k : nat) (n m : N),
+    (n < 256 ^ N.of_nat k)%N -> (m < 256 ^ N.of_nat k)%N ->
+    (blt (be k n) (be k m) <-> (n < m)%N).
+Proof. exact be_lt_iff. Qed.
+Print Assumptions C18_be_lt_iff.
+
+Theorem C18_be64_u64_lt_iff :
+  forall a b : Z,
+    0 <= a < 2 ^ 63 -> 0 <= b < 2 ^ 63 ->
+    (blt (be64 (u64 a)) (be64 (u64 b)) <-> a < b).
+Proof. exact be64_u64_lt_iff. Qed.
+Print Assumptions C18_be64_u64_lt_iff.
+
+Theorem C18_be64_u64_order_refuted :
+  exists a b : Z, is_int64 a /\ is_int64 b /\ a < b /\ blt (be64 (u64 b)) (be64 (u64 a)).
+Proof. exact be64_u64_order_refuted. Qed.
+Print Assumptions C18_be64_u64_order_refuted.
+
+(* context ids *)
+Theorem C18_enc_ctx_le :
+  forall hb : Z -> bytes,
+    (forall a : Z, hash_ok a -> length (hb a) = 32%nat) ->
+    (forall a b : Z, hash_ok a -> hash_ok b -> a < b -> blt (hb a) (hb b)) ->
+    forall c c' : CtxId, nn_cid c -> nn_cid c' ->
+      (ctxid_leb c c' = true <-> ble (enc_ctx hb c) (enc_ctx hb c')).
+Proof. exact enc_ctx_le. Qed.
+Print Assumptions C18_enc_ctx_le.
+
+Theorem C18_K_order_request_context :
+  forall hb : Z -> bytes,
+    (forall a : Z, hash_ok a -> length (hb a) = 32%nat) ->
+    (forall a b : Z, hash_ok a -> hash_ok b -> a < b -> blt (hb a) (hb b)) ->
+    forall c c' : CtxId, nn_cid c -> nn_cid c' ->
+      (ctxid_leb c c' = true
+       <-> ble (GetRequestContextKey (enc_ctx hb c)) (GetRequestContextKey (enc_ctx hb c'))).
+Proof. exact K_order_request_context. Qed.
+Print Assumptions C18_K_order_request_context.
+
+Theorem C18_K_order_expired_batch :
+  forall hb : Z -> bytes,
+    (forall a : Z, hash_ok a -> length (hb a) = 32%nat) ->
+    (forall a b : Z, hash_ok a -> hash_ok b -> a < b -> blt (hb a) (hb b)) ->
+    forall (c c' : CtxId) (h : Z), nn_cid c -> nn_cid c' ->
+      (ctxid_leb c c' = true
+       <-> ble (GetExpiredRequestBatchKey (enc_ctx hb c) h)
+               (GetExpiredRequestBatchKey (enc_ctx hb c') h)).
+Proof. exact K_order_expired_batch. Qed.
+Print Assumptions C18_K_order_expired_batch.
+
+Theorem C18_K_order_new_batch :
+  forall hb : Z -> bytes,
+    (forall a : Z, hash_ok a -> length (hb a) = 32%nat) ->
+    (forall a b : Z, hash_ok a -> hash_ok b -> a < b -> blt (hb a) (hb b)) ->
+    forall (c c' : CtxId) (h : Z), nn_cid c -> nn_cid c' ->
+      (ctxid_leb c c' = true
+       <-> ble (GetNewRequestBatchKey (enc_ctx hb c) h)
+               (GetNewRequestBatchKey (enc_ctx hb c') h)).
+Proof. exact K_order_new_batch. Qed.
+Print Assumptions C18_K_order_new_batch.
+
+(* across heights the expiry queue sorts by height first *)
+Theorem C18_K_order_expired_batch_heights :
+  forall hb : Z -> bytes,
+    (forall a : Z, hash_ok a -> length (hb a) = 32%nat) ->
+    (forall a b : Z, hash_ok a -> hash_ok b -> a < b -> blt (hb a) (hb b)) ->
+    forall (c c' : CtxId) (h h' : Z),
+      0 <= h < 2 ^ 63 -> 0 <= h' < 2 ^ 63 ->
+      (blt (GetExpiredRequestBatchKey (enc_ctx hb c) h)
+           (GetExpiredRequestBatchKey (enc_ctx hb c') h')
+       <-> h < h' \/ (h = h' /\ blt (enc_ctx hb c) (enc_ctx hb c'))).
+Proof. exact K_order_expired_batch_heights. Qed.
+Print Assumptions C18_K_order_expired_batch_heights.
+
+(* request ids *)
+Theorem C18_enc_rid_le :
+  forall hb : Z -> bytes,
+    (forall a : Z, hash_ok a -> length (hb a) = 32%nat) ->
+    (forall a b : Z, hash_ok a -> hash_ok b -> a < b -> blt (hb a) (hb b)) ->
+    forall r r' : ReqId, nn_rid r -> nn_rid r' ->
+      (rid_leb r r' = true <-> ble (enc_rid hb r) (enc_rid hb r')).
+Proof. exact enc_rid_le. Qed.
+Print Assumptions C18_enc_rid_le.
+
+Theorem C18_K_order_request :
+  forall hb : Z -> bytes,
+    (forall a : Z, hash_ok a -> length (hb a) = 32%nat) ->
+    (forall a b : Z, hash_ok a -> hash_ok b -> a < b -> blt (hb a) (hb b)) ->
+    forall r r' : ReqId, nn_rid r -> nn_rid r' ->
+      (rid_leb r r' = true
+       <-> ble (GetRequestKey (enc_rid hb r)) (GetRequestKey (enc_rid hb r'))).
+Proof. exact K_order_request. Qed.
+Print Assumptions C18_K_order_request.
+
+Theorem C18_K_order_active_by_id :
+  forall hb : Z -> bytes,
+    (forall a : Z, hash_ok a -> length (hb a) = 32%nat) ->
+    (forall a b : Z, hash_ok a -> hash_ok b -> a < b -> blt (hb a) (hb b)) ->
+    forall r r' : ReqId, nn_rid r -> nn_rid r' ->
+      (rid_leb r r' = true
+       <-> ble (GetActiveRequestKeyByID (enc_rid hb r)) (GetActiveRequestKeyByID (enc_rid hb r'))).
+Proof. exact K_order_active_by_id. Qed.
+Print Assumptions C18_K_order_active_by_id.
+
+Theorem C18_K_order_response :
+  forall hb : Z -> bytes,
+    (forall a : Z, hash_ok a -> length (hb a) = 32%nat) ->
+    (forall a b : Z, hash_ok a -> hash_ok b -> a < b -> blt (hb a) (hb b)) ->
+    forall r r' : ReqId, nn_rid r -> nn_rid r' ->
+      (rid_leb r r' = true
+       <-> ble (GetResponseKey (enc_rid hb r)) (GetResponseKey (enc_rid hb r'))).
+Proof. exact K_order_response. Qed.
+Print Assumptions C18_K_order_response.
+
+(* active markers of one binding: expiration height, then request id *)
+Theorem C18_K_order_active_request :
+  forall hb : Z -> bytes,
+    (forall a : Z, hash_ok a -> length (hb a) = 32%nat) ->
+    (forall a b : Z, hash_ok a -> hash_ok b -> a < b -> blt (hb a) (hb b)) ->
+    forall (bech : bytes -> bytes) (sn p : bytes) (a b : ReqId * Req),
+      nn_rid (fst a) -> nn_rid (fst b) ->
+      0 <= r_exp (snd a) < 2 ^ 63 -> 0 <= r_exp (snd b) < 2 ^ 63 ->
+      (act_leb a b = true
+       <-> ble (GetActiveRequestKey bech sn p (r_exp (snd a)) (enc_rid hb (fst a)))
+               (GetActiveRequestKey bech sn p (r_exp (snd b)) (enc_rid hb (fst b)))).
+Proof. exact K_order_active_request. Qed.
+Print Assumptions C18_K_order_active_request.
+
+(* with the hash written as 32 big-endian bytes: no hypothesis on the encoding left *)
+Theorem C18_K_order_expired_batch_hash :
+  forall (c c' : CtxId) (h : Z), nn_cid c -> nn_cid c' ->
+    (ctxid_leb c c' = true
+     <-> ble (GetExpiredRequestBatchKey (enc_ctx hash_bytes c) h)
+             (GetExpiredRequestBatchKey (enc_ctx hash_bytes c') h)).
+Proof. exact K_order_expired_batch_hash. Qed.
+Print Assumptions C18_K_order_expired_batch_hash.
+
+Theorem C18_K_order_new_batch_hash :
+  forall (c c' : CtxId) (h : Z), nn_cid c -> nn_cid c' ->
+    (ctxid_leb c c' = true
+     <-> ble (GetNewRequestBatchKey (enc_ctx hash_bytes c) h)
+             (GetNewRequestBatchKey (enc_ctx hash_bytes c') h)).
+Proof. exact K_order_new_batch_hash. Qed.
+Print Assumptions C18_K_order_new_batch_hash.
+
+Theorem C18_K_order_request_hash :
+  forall r r' : ReqId, nn_rid r -> nn_rid r' ->
+    (rid_leb r r' = true
+     <-> ble (GetRequestKey (enc_rid hash_bytes r)) (GetRequestKey (enc_rid hash_bytes r'))).
+Proof. exact K_order_request_hash. Qed.
+Print Assumptions C18_K_order_request_hash.
+
+(* a negative message index: the model puts (1, -1) before (1, 0), the store after *)
+Theorem C18_ctxid_order_refuted :
+  exists c c' : CtxId,
+    cid_ok c /\ cid_ok c' /\ ctxid_leb c c' = true
+    /\ blt (GetNewRequestBatchKey (enc_ctx hash_bytes c') 1)
+           (GetNewRequestBatchKey (enc_ctx hash_bytes c) 1).
+Proof. exact ctxid_order_refuted. Qed.
+Print Assumptions C18_ctxid_order_refuted.
+
+(* the order in which EndBlock handles the due contexts is the order of their queue keys *)
+Theorem C18_due_new_in_store_order :
+  forall hb : Z -> bytes,
+    (forall a : Z, hash_ok a -> length (hb a) = 32%nat) ->
+    (forall a b : Z, hash_ok a -> hash_ok b -> a < b -> blt (hb a) (hb b)) ->
+    forall (q : list (Z * CtxId)) (h : Z),
+      (forall e : Z * CtxId, In e q -> nn_cid (snd e)) ->
+      Sorted (fun c c' : CtxId => ble (GetNewRequestBatchKey (enc_ctx hb c) h)
+                                      (GetNewRequestBatchKey (enc_ctx hb c') h)) (due q h).
+Proof. exact due_new_in_store_order. Qed.
+Print Assumptions C18_due_new_in_store_order.
+
+Theorem C18_due_expired_in_store_order :
+  forall hb : Z -> bytes,
+    (forall a : Z, hash_ok a -> length (hb a) = 32%nat) ->
+    (forall a b : Z, hash_ok a -> hash_ok b -> a < b -> blt (hb a) (hb b)) ->
+    forall (q : list (Z * CtxId)) (h : Z),
+      (forall e : Z * CtxId, In e q -> nn_cid (snd e)) ->
+      Sorted (fun c c' : CtxId => ble (GetExpiredRequestBatchKey (enc_ctx hb c) h)
+                                      (GetExpiredRequestBatchKey (enc_ctx hb c') h)) (due q h).
+Proof. exact due_expired_in_store_order. Qed.
+Print Assumptions C18_due_expired_in_store_order.
+
+(* ------------------------------------------------------------------ *)
+(* reachable states (Proofs/GapC18Trace.v: new trace invariants over Reach) *)
+From SVC Require Import Proofs.GapC18Trace.
+
+(* facet 5, client side (client/utils/query.go QueryRequestByTxQuery takes the first
+   new_batch_request event of the context in the block): a context starts at most one batch
+   per block, so (context, height) determines the batch *)
+Theorem C18_one_batch_start_per_block :
+  forall (cfg : Params) (s : State) (c : CtxId) (n n' h k k' : Z),
+    wf_cfg cfg -> Reach cfg s ->
+    In (EvBatchStart c n h k) (log s) -> In (EvBatchStart c n' h k') (log s) ->
+    n = n' /\ k = k'.
+Proof. exact one_batch_start_per_block. Qed.
+Print Assumptions C18_one_batch_start_per_block.
+
+Theorem C18_batch_start_height :
+  forall (cfg : Params) (s : State) (c : CtxId) (n h k : Z),
+    wf_cfg cfg -> Reach cfg s -> In (EvBatchStart c n h k) (log s) -> h <= height s.
+Proof. exact batch_start_height. Qed.
+Print Assumptions C18_batch_start_height.
+
+(* facet 6: the ranges of the fields of every stored request id.  HEIGHT_BOUND = 2^62. *)
+Theorem C18_reachable_rid_ranges :
+  forall (cfg : Params) (s : State) (r : ReqId) (q : Req),
+    wf_cfg cfg -> Reach cfg s -> get r (reqs s) = Some q ->
+    1 <= rid_batch r <= rid_height r
+    /\ 1 <= rid_height r <= height s /\ rid_height r < HEIGHT_BOUND
+    /\ 0 <= rid_index r < 10
+    /\ exists rc : Ctx, get (rid_ctx r) (ctxs s) = Some rc
+         /\ rid_batch r = c_counter rc /\ 0 <= rid_index r < c_breq rc /\ c_breq rc <= 10.
+Proof. exact reachable_rid_ranges. Qed.
+Print Assumptions C18_reachable_rid_ranges.
+
+Theorem C18_reachable_counter_le_height :
+  forall (cfg : Params) (s : State) (c : CtxId) (rc : Ctx),
+    wf_cfg cfg -> Reach cfg s -> get c (ctxs s) = Some rc -> 0 <= c_counter rc <= height s.
+Proof. exact reachable_counter_le_height. Qed.
+Print Assumptions C18_reachable_counter_le_height.
+
+(* the context id itself (transaction hash, message index) is handed in by the host: its
+   shape stays a hypothesis; everything else of rid_ok / nn_rid holds by reachability *)
+Theorem C18_reachable_rid_ok :
+  forall (cfg : Params) (s : State) (r : ReqId) (q : Req),
+    wf_cfg cfg -> Reach cfg s -> get r (reqs s) = Some q -> cid_ok (rid_ctx r) -> rid_ok r.
+Proof. exact reachable_rid_ok. Qed.
+Print Assumptions C18_reachable_rid_ok.
+
+Theorem C18_reachable_nn_rid :
+  forall (cfg : Params) (s : State) (r : ReqId) (q : Req),
+    wf_cfg cfg -> Reach cfg s -> get r (reqs s) = Some q -> nn_cid (rid_ctx r) -> nn_rid r.
+Proof. exact reachable_nn_rid. Qed.
+Print Assumptions C18_reachable_nn_rid.
+
+Theorem C18_reachable_enc_rid_inj :
+  forall (cfg : Params) (s : State) (hb : Z -> bytes) (r : ReqId) (q : Req) (r' : ReqId) (q' : Req),
+    (forall a : Z, hash_ok a -> length (hb a) = 32%nat) ->
+    (forall a b : Z, hash_ok a -> hash_ok b -> hb a = hb b -> a = b) ->
+    wf_cfg cfg -> Reach cfg s -> get r (reqs s) = Some q -> get r' (reqs s) = Some q' ->
+    cid_ok (rid_ctx r) -> cid_ok (rid_ctx r') ->
+    GetRequestKey (enc_rid hb r) = GetRequestKey (enc_rid hb r') -> r = r'.
+Proof. exact reachable_enc_rid_inj. Qed.
+Print Assumptions C18_reachable_enc_rid_inj.
+
+Theorem C18_reachable_request_order :
+  forall (cfg : Params) (s : State) (hb : Z -> bytes) (r : ReqId) (q : Req) (r' : ReqId) (q' : Req),
+    (forall a : Z, hash_ok a -> length (hb a) = 32%nat) ->
+    (forall a b : Z, hash_ok a -> hash_ok b -> a < b -> blt (hb a) (hb b)) ->
+    wf_cfg cfg -> Reach cfg s -> get r (reqs s) = Some q -> get r' (reqs s) = Some q' ->
+    nn_cid (rid_ctx r) -> nn_cid (rid_ctx r') ->
+    (rid_leb r r' = true
+     <-> ble (GetRequestKey (enc_rid hb r)) (GetRequestKey (enc_rid hb r'))).
+Proof. exact reachable_request_order. Qed.
+Print Assumptions C18_reachable_request_order.
+
+(* on a concrete reachable state (ExB.s_a followed by one EndBlock) *)
+Theorem C18_reachable_rid_ranges_ex :
+  get (ExB.c1, 1, 1, 1) (reqs ExT.s_e) = Some (mkReq 11 30 21 true)
+  /\ rid_ok (ExB.c1, 1, 1, 1) /\ nn_rid (ExB.c1, 1, 1, 1).
+Proof. exact ExT.reachable_rid_ranges_ex. Qed.
+Print Assumptions C18_reachable_rid_ranges_ex.
